@@ -64,7 +64,7 @@ theorem C11_substitution (fuel : Nat) (ctx : Ctx) (vs : List (String × Int)) (e
   eval_subst_vals fuel ctx vs e
 
 theorem C11_fuel (f : Nat) (ctx : Ctx) (e : Expr) (r : Except EvErr Int)
-    (h : eval f ctx e = r) (hr : r ≠ .error (.recursionLimit "fuel")) : eval (f + 1) ctx e = r :=
+    (h : eval f ctx e = r) (hr : r ≠ .error (.recursionLimit evalFuelMark)) : eval (f + 1) ctx e = r :=
   eval_fuel_mono f ctx e r h hr
 
 open Asm.Layout Asm.FullText in
